@@ -5,7 +5,7 @@ use memvid_core::io::EmbeddedWal;
 use memvid_core::types::Header;
 use mvh::*;
 use std::fs::File;
-use std::io::{Read, Seek, SeekFrom};
+use std::io::{Read, Seek, SeekFrom, Write};
 
 const WAL_OFFSET: u64 = 4096;
 
@@ -47,6 +47,9 @@ fn op_from(v: &Value) -> Op {
     }
 }
 
+const GUARD: usize = 128;
+fn guard_pattern(n: usize) -> Vec<u8> { (0..n).map(|i| 0xa5u8 ^ (i as u8).wrapping_mul(7)).collect() }
+
 fn payload(len: usize, fill: u8) -> Vec<u8> {
     (0..len).map(|i| fill.wrapping_add((i % 251) as u8).wrapping_mul(3).wrapping_add(1)).collect()
 }
@@ -59,8 +62,13 @@ struct Real {
 
 impl Real {
     fn new(s: u64) -> Result<Real, String> {
-        let file = tempfile::tempfile().map_err(|e| e.to_string())?;
+        let mut file = tempfile::tempfile().map_err(|e| e.to_string())?;
+        // guard areas: the header page before the region and GUARD bytes behind it (where the data
+        // area of a real memory starts) carry a pattern the log must never touch
+        file.write_all(&guard_pattern(WAL_OFFSET as usize)).map_err(|e| e.to_string())?;
         file.set_len(WAL_OFFSET + s).map_err(|e| e.to_string())?;
+        file.seek(SeekFrom::Start(WAL_OFFSET + s)).map_err(|e| e.to_string())?;
+        file.write_all(&guard_pattern(GUARD)).map_err(|e| e.to_string())?;
         let header = Header {
             magic: *b"MV2\0", version: 0x0201, footer_offset: 0, wal_offset: WAL_OFFSET, wal_size: s,
             wal_checkpoint_pos: 0, wal_sequence: 0, toc_checksum: [0u8; 32],
@@ -68,6 +76,27 @@ impl Real {
         let mut wal = EmbeddedWal::open(&file, &header).map_err(|e| format!("{e}"))?;
         wal.set_skip_sync(true);
         Ok(Real { file, header, wal: Some(wal) })
+    }
+    /// Some(what) when the log wrote outside `[WAL_OFFSET, WAL_OFFSET + wal_size)`
+    fn outside_touched(&mut self) -> Option<String> {
+        let s = self.header.wal_size;
+        let mut f = self.file.try_clone().unwrap();
+        let len = f.metadata().map(|m| m.len()).unwrap_or(0);
+        if len != WAL_OFFSET + s + GUARD as u64 { return Some(format!("file length {len}, expected {}", WAL_OFFSET + s + GUARD as u64)); }
+        let mut head = vec![0u8; WAL_OFFSET as usize];
+        f.seek(SeekFrom::Start(0)).unwrap();
+        f.read_exact(&mut head).unwrap();
+        if head != guard_pattern(WAL_OFFSET as usize) { return Some("bytes before the log region changed".into()); }
+        let mut tail = vec![0u8; GUARD];
+        f.seek(SeekFrom::Start(WAL_OFFSET + s)).unwrap();
+        f.read_exact(&mut tail).unwrap();
+        let want = guard_pattern(GUARD);
+        if tail != want {
+            let k = tail.iter().zip(want.iter()).position(|(a, b)| a != b).unwrap_or(0);
+            let n = tail.iter().zip(want.iter()).filter(|(a, b)| a != b).count();
+            return Some(format!("{n} byte(s) behind the log region changed, first at region end + {k}"));
+        }
+        None
     }
     fn region_hash(&mut self) -> String {
         let mut buf = vec![0u8; self.header.wal_size as usize];
@@ -223,6 +252,11 @@ fn run_history(s: u64, ops: &[Op], drv: Option<&mut Driver>, verbose: bool) -> O
         out.trace.push(format!("{req} -> {imp}"));
         if model != imp && out.disagree.is_none() {
             out.disagree = Some((format!("op {i} `{}`", if req.len() > 60 { &req[..60] } else { &req }), model, imp.clone()));
+        }
+        if out.oracle.is_none() {
+            if let Some(what) = real.outside_touched() {
+                out.oracle = Some(("log-wrote-outside-its-region".into(), format!("op {i} `{}`: {what}", if req.len() > 40 { &req[..40] } else { &req })));
+            }
         }
         if real.wal.is_none() { break; }
         if out.oracle.is_some() { break; }
